@@ -259,7 +259,17 @@ def run_spec(w, spec, meta) -> None:
                     w.case((meta, cls, "ctor", tuple(sorted((k, str(x)) for k, x in truth.items()))))
                     for d in discs:
                         if d.kind in ("outcome", "error-identity") or (d.kind == "events" and d.info.get("body_expected") != d.info.get("body_observed")):
-                            w.violation("C04/constructor-contracts-" + d.kind, d.what, {"prog": spec, "call": {"target": "construct", "cls": cls, "truth": truth},
+                            vkey = "C04/constructor-contracts-" + d.kind
+                            import inspect as _inspect  # pylint: disable=import-outside-toplevel
+                            try:
+                                resolved = _inspect.unwrap(getattr(loaded.get(cls), ckey)).__qualname__.split(".")[0]
+                            except Exception:  # pylint: disable=broad-except
+                                resolved = None
+                            if o is not None and resolved in model.classes and resolved != o:
+                                # mechanism: a class on the MRO holds a (wrapped) copy of the constructor it inherits; the copy is
+                                # found before the sibling class that overrides the constructor
+                                vkey = "C04/inherited-constructor-copy-shadows-override-in-mro"
+                            w.violation(vkey, d.what, {"prog": spec, "call": {"target": "construct", "cls": cls, "truth": truth},
                                                                                          "meta": meta}, {"expected": repr(exp), "observed": obs.describe()})
                 continue
             key = spec["key"]
@@ -314,6 +324,18 @@ def specs(w, avoid_copy_shadow: bool = False):
                                         avoid_copy_shadow=False)
                 spec["classes"][1]["invs"] = [gen.make_inv(ids, rng)]
                 yield ("copy-shadow", kind, False, 0), spec
+            # the same for constructors: the class in the middle holds (a) a copy of the root's already wrapped constructor
+            # (invariants on the root) or (b) a wrapper of its own around the inherited constructor (invariants added by it)
+            for kind in ("init", "new"):
+                for inv_at in (0, 1):
+                    idx += 1
+                    if idx % w.nshards != w.shard:
+                        continue
+                    ids = gen.Ids()
+                    spec = gen.hier_program(ids, rng, [[], [0], [0], [1, 2]], kind, False, choices=["plain", "absent", "both", "absent"],
+                                            inv_prob=0.0, avoid_copy_shadow=False)
+                    spec["classes"][inv_at]["invs"] = [gen.make_inv(ids, rng)]
+                    yield ("copy-shadow-ctor", kind, False, inv_at), spec
         # member names that also exist on the metaclass (type / ABCMeta)
         for name in METACLASS_NAMES:
             idx += 1
